@@ -61,6 +61,12 @@ def rtProp (I : Impl) (rec : String → J → J) (p : IProp) (m : J) : List (Str
       | .null => []
       | v => [(name, v)]
 
+/-- the members property `pn` contributes -/
+def propMembers (I : Impl) (rec : String → J → J) (j : J) (pn : String) : List (String × J) :=
+  match I.findProp pn with
+  | some p => rtProp I rec p j
+  | none => []
+
 /-- a typed value, given the normaliser of the values nested in it -/
 def rtTypeWith (I : Impl) (rec : String → J → J) (k : String) (j : J) : J :=
   match I.findType k with
@@ -68,9 +74,7 @@ def rtTypeWith (I : Impl) (rec : String → J → J) (k : String) (j : J) : J :=
   | some t =>
     -- a typeless type (security PublicKey) writes no `type` of its own
     let base : J := if t.typeless then .obj [] else .obj [("type", .str k)]
-    let known := t.serProps.flatMap fun pn => match I.findProp pn with
-      | some p => rtProp I rec p j
-      | none => []
+    let known := t.serProps.flatMap (propMembers I rec j)
     let withKnown := known.foldl (fun (m : J) kv => m.set kv.1 kv.2) base
     (j.members.filter fun kv => !t.knownKeys.contains kv.1).foldl
       (fun (m : J) kv => if m.has kv.1 then m else m.set kv.1 kv.2) withKnown
